@@ -738,17 +738,35 @@ fn exec_t<T: Sc, F: Factory<T>>(sc: &Scenario) -> RunReport {
                         _ => f64::INFINITY,
                     };
                     let rel_h = (4096.0 * (n as f64 + 8.0) * T::u() + floor::<T>()) * kh.max(1.0).powi(2);
+                    let mut continue_stats = true;
                     if let (Some(sa), Some(sb)) = (&fa.stats, &fb.stats) {
                         if same_opt && rel_h < 1e-2 {
                             let (xa, xb) = (sa.reduced_chi2.f(), sb.reduced_chi2.f());
                             let tol = 64.0 * n as f64 * T::u() * c.kappa.max(1.0).powi(2);
-                            if tol < 1e-3 && xa.is_finite() && xb.is_finite() && (xa - xb).abs() > tol * xa.abs().max(xb.abs()) + 8.0 * T::tiny() {
-                                rep.violate(sc, "WEIGHT_STATS_MISMATCH", "reduced_chi2", format!("reduced chi2 of the twins differ: {xa:e} vs {xb:e}"));
+                            // chi2 = ||r||^2/dof with r = Yw - (W.Phi)C: each residual carries an
+                            // absolute rounding error on the scale of its terms, so for (nearly)
+                            // exact fits chi2 is itself rounding noise. The comparison is relative
+                            // to the larger of chi2 and that noise level.
+                            let cm = fa.coeffs.as_ref().map(|c| c.iter().map(|v| v.f().abs()).filter(|v| v.is_finite()).fold(0.0f64, f64::max)).unwrap_or(0.0);
+                            let r_term = c.yw_scale + c.phiw_scale * cm;
+                            let dof = (n as f64 - ra.world.m() as f64 - ra.world.p() as f64).max(1.0);
+                            let rnorm_a = (xa.abs() * dof).sqrt();
+                            let noise_r = 64.0 * (n as f64 + 8.0) * T::u() * r_term * (n as f64).sqrt();
+                            // d(chi2) <= (2 ||r|| dr + dr^2)/dof
+                            let chi_noise = (2.0 * rnorm_a * noise_r + noise_r * noise_r) / dof;
+                            let chi_significant = xa.abs().max(xb.abs()) > 1e3 * chi_noise;
+                            if tol < 1e-3 && xa.is_finite() && xb.is_finite() && (xa - xb).abs() > tol * xa.abs().max(xb.abs()) + chi_noise + 8.0 * T::tiny() {
+                                rep.violate(sc, "WEIGHT_STATS_MISMATCH", "reduced_chi2", format!("reduced chi2 of the twins differ: {xa:e} vs {xb:e} (rounding noise level {chi_noise:e})"));
                             }
-                            let ca: Vec<T> = sa.covariance.iter().copied().collect();
-                            let cb: Vec<T> = sb.covariance.iter().copied().collect();
+                            if !chi_significant {
+                                // covariance = chi2 (H^T H)^-1 inherits the noise of chi2
+                                rep.probe("gated_out_covariance");
+                                continue_stats = false;
+                            }
+                            let ca: Vec<T> = if continue_stats { sa.covariance.iter().copied().collect() } else { vec![] };
+                            let cb: Vec<T> = if continue_stats { sb.covariance.iter().copied().collect() } else { vec![] };
                             // the inverse of H^T H is accurate normwise, not entrywise
-                            let d = sa.covariance.nrows();
+                            let d = if continue_stats { sa.covariance.nrows() } else { 0 };
                             let cmax = ca.iter().chain(cb.iter()).map(|v| v.f().abs()).filter(|v| v.is_finite()).fold(0.0f64, f64::max);
                             let mut bad = None;
                             for i in 0..d {
@@ -762,7 +780,9 @@ fn exec_t<T: Sc, F: Factory<T>>(sc: &Scenario) -> RunReport {
                             if let Some((i, j, x, y)) = bad {
                                 rep.violate(sc, "WEIGHT_STATS_MISMATCH", "covariance", format!("covariance matrices of the twins differ at ({i},{j}): {x:e} vs {y:e} (kappa(H) = {kh:e})"));
                             }
-                            rep.probe("covariance_compared");
+                            if continue_stats {
+                                rep.probe("covariance_compared");
+                            }
                         } else {
                             rep.probe("gated_out_covariance");
                         }
